@@ -37,7 +37,7 @@ ALAB = ['ab', 'rev', 'ab', 'mix', 'rev', 'fd']
 def bounds(tier):
     return {'quick': {'n<=2': 'full branching (every answer sequence)', 'n=3': 'deviation bound 2', 'max_points': 60,
                       'flags': '1 of 4 (rotating) per spec', 'heuristics': 4},
-            'thorough': {'n<=2': 'full branching, all 4 flag combinations', 'n=3': 'deviation bound 3 + full branching if <= 3000 leaves',
+            'thorough': {'n<=2': 'full branching, 2 of 4 flag combinations (rotating)', 'n=3': 'deviation bound 3 + full branching if <= 3000 leaves',
                          'max_points': 80}}[tier]
 
 
@@ -49,8 +49,8 @@ def spec_items(tier):
         yield from build.enum_mdps(2, AS, 1, [F(-1), F(0)], [(), (1,)], [build.INIT_MENU[2][0], build.INIT_MENU[2][2]], [F(1)])
         yield from build.chain_mdps(3, [F(1)], [F(-1), F(0)])
     else:
-        yield from build.enum_mdps(2, [('a',), ('b',), ('a', 'b')], 1, [F(-1), F(0), F(1)], build.subsets(2), build.INIT_MENU[2],
-                                   [F(1, 2), F(9, 10), F(1)])
+        yield from build.enum_mdps(2, [('a',), ('b',), ('a', 'b')], 1, [F(-1), F(0), F(1)], [(), (1,), (0,)], build.INIT_MENU[2][:3:2],
+                                   [F(9, 10), F(1)])
         yield from build.chain_mdps(3, [F(9, 10), F(1)], [F(-1), F(0)])
         yield from build.enum_mdps(3, AS, 1, [F(-1)], [(2,)], [build.INIT_MENU[3][0], build.INIT_MENU[3][1]], [F(1)])
 
@@ -59,7 +59,7 @@ def items(tier, seed):
     for i, it in enumerate(spec_items(tier)):
         if i % 3 == 2:
             it = build.with_ns_rewards(it)
-        flags = [(i + seed) % 4] if tier == 'quick' else [0, 1, 2, 3]
+        flags = [(i + seed) % 4] if tier == 'quick' else [(i + seed) % 4, (i + seed + 1 + (i // 4) % 3) % 4]
         yield (it, (i + seed) % 6, tuple(sorted(set(flags))))
 
 
